@@ -214,6 +214,11 @@ impl<F: Float, D: Distance<F>, N: NearestNeighbour>
             self.set_core_distance(n, &neighbors, observations);
             if n.core_distance.is_some() {
                 seeds.clear();
+                // The sample that starts a cluster is listed first, with an undefined reachability
+                // distance. It must be marked as processed before its seeds are collected,
+                // otherwise it becomes a seed of itself and is listed after one of its neighbours
+                result.orderings.push(n.clone());
+                processed.insert(n.index);
                 // Here we get a list of "density reachable" samples that haven't been processed
                 // and sort them by reachability so we can process the closest ones first.
                 self.get_seeds(
